@@ -50,6 +50,7 @@ type Config struct {
 	Trace      bool
 	MapOrder   bool // nondeterministic map iteration order (<= 4 entries)
 	SymbolicShifts bool // keep symbolic shift amounts as terms instead of forking over their values
+	Solver2        string // optional second back end that re-discharges every assertion obligation
 }
 
 type knownPred struct {
@@ -90,6 +91,9 @@ type Stats struct {
 	Shapes       map[string]int
 	InitFailed   []string
 	GoStmts      int
+	CrossChecked  int // obligations re-discharged by the second solver
+	CrossUnknown  int // second solver timed out / unknown (recorded, not a failure)
+	CrossDisagree int // second solver found a model where the first said unsat (machinery failure)
 }
 
 func newStats() *Stats {
@@ -109,6 +113,9 @@ func (s *Stats) merge(o *Stats) {
 	s.Merges += o.Merges
 	s.Forks += o.Forks
 	s.GoStmts += o.GoStmts
+	s.CrossChecked += o.CrossChecked
+	s.CrossUnknown += o.CrossUnknown
+	s.CrossDisagree += o.CrossDisagree
 	mm := func(a, b map[string]int) {
 		for k, v := range b {
 			a[k] += v
@@ -151,6 +158,7 @@ type Machine struct {
 	prog    *ssa.Program
 	tt      *TermTable
 	solver  *Solver
+	solver2 *Solver
 	cfg     *Config
 	stats   *Stats
 	globals map[*ssa.Global]*value
@@ -213,10 +221,22 @@ func NewMachine(prog *ssa.Program, cfg *Config, solverKind string, timeoutMs int
 	}
 	m := &Machine{prog: prog, tt: NewTermTable(), solver: s, cfg: cfg, stats: newStats(),
 		globals: map[*ssa.Global]*value{}, fninfo: map[*ssa.Function]*fnInfo{}}
+	if cfg.Solver2 != "" && cfg.Solver2 != solverKind {
+		s2, err := NewSolver(cfg.Solver2, timeoutMs)
+		if err != nil {
+			return nil, err
+		}
+		m.solver2 = s2
+	}
 	return m, nil
 }
 
-func (m *Machine) Close() { m.solver.Close() }
+func (m *Machine) Close() {
+	m.solver.Close()
+	if m.solver2 != nil {
+		m.solver2.Close()
+	}
+}
 
 func (m *Machine) info(fn *ssa.Function) *fnInfo {
 	if fi, ok := m.fninfo[fn]; ok {
@@ -770,6 +790,19 @@ func (m *Machine) checkViolation(bad *Term, kind, label, detail string) (anyViol
 			m.stats.Unknown++
 			m.viols = append(m.viols, Violation{Label: label, Kind: "unknown", Detail: "solver unknown on " + kind + " " + detail + " " + m.solver.LastErr, Choices: append([]int(nil), m.choices...), Stack: stack})
 			return true
+		}
+		// discharged by the primary solver: optionally re-discharge with a second back end
+		if m.solver2 != nil {
+			switch m.solver2.Check(m.pc, []*Term{bad, extra}, nil, nil) {
+			case Unsat:
+				m.stats.CrossChecked++
+			case Unknown:
+				m.stats.CrossUnknown++
+			case Sat:
+				m.stats.CrossDisagree++
+				m.viols = append(m.viols, Violation{Label: label, Kind: "unknown", Detail: "SOLVER DISAGREEMENT: " + m.solver.Kind + " says unsat, " + m.solver2.Kind + " says sat on " + kind + " " + detail, Choices: append([]int(nil), m.choices...), Stack: stack})
+				return true
+			}
 		}
 		return false
 	}
